@@ -18,6 +18,10 @@ VARIABLES P, prog, cur, avail, calls, obs, l
 vars == <<P, prog, cur, avail, calls, obs, l>>
 
 Ob == INSTANCE HtpObs
+\* MaxCalls < 0 is the liveness mode used by HtpDriver.tla: calls are not counted and the observers (whose history fields grow with every
+\* event) are switched off, so that the state space is finite without a bound on the length of behaviours
+LiveMode == MaxCalls < 0
+OStep(o, ev) == IF LiveMode THEN o ELSE Ob!ObsStep(o, ev)
 TraceLog == IF TraceMode THEN ndJsonDeserialize(IOEnv.TRACE) ELSE <<>>
 RECURSIVE NextSE(_)
 NextSE(k) == IF k > Len(TraceLog) THEN 0 ELSE IF TraceLog[k].e = "SE" THEN k ELSE NextSE(k + 1)
@@ -64,14 +68,21 @@ RetEv(p, d, rc, consumed) ==
   [e |-> "Ret", d |-> d, rc |-> rc, consumed |-> consumed, ist |-> p.in_status, ost |-> p.out_status, ntx |-> Len(p.txs),
    onti |-> p.onti, in_tx |-> p.in_tx - 1, out_tx |-> p.out_tx - 1, ibuf |-> 0, ihdr |-> 0, obuf |-> 0, ohdr |-> 0, inc |-> 0, outc |-> 0, live |-> 0, liveb |-> 0]
 ObsInitM == [Ob!ObsInit EXCEPT !.counters_known = FALSE, !.cfg.autod = AutoDestroy, !.cfg.maxtx = 0]
-ObsCb(o, p, n, i) == Ob!ObsStep(o, CbEv(p, n, i, "OK"))
-ObsCbR(o, p, n, i, res) == Ob!ObsStep(o, CbEv(p, n, i, res))
+ObsCb(o, p, n, i) == OStep(o, CbEv(p, n, i, "OK"))
+ObsCbR(o, p, n, i, res) == OStep(o, CbEv(p, n, i, res))
 
 (* ---------------- micro-ops ---------------- *)
 Cb(n, i, f)   == [op |-> "cb", n |-> n, tx |-> i, f |-> f]        \* f \in {"prop","err","ign"}
 Cbs(n, i, f)  == [op |-> "cbs", n |-> n, tx |-> i, f |-> f, k |-> 0]  \* zero or more callbacks (decompressor)
-Set(fld, v)   == [op |-> "set", fld |-> fld, v |-> v]
-SetTx(i, fld, v) == [op |-> "txf", tx |-> i, fld |-> fld, v |-> v]
+\* values of different types travel in differently named fields, so that TLC never has to compare a boolean with a string when it
+\* normalises a set of outcomes
+BoolFld == {"in_buf", "out_buf", "odoate", "p09"}
+IntFld == {"in_tx", "out_tx", "onti", "rp", "sp"}
+Set(fld, v)   == IF fld \in BoolFld THEN [op |-> "set", fld |-> fld, b |-> v]
+                 ELSE IF fld \in IntFld THEN [op |-> "set", fld |-> fld, n |-> v] ELSE [op |-> "set", fld |-> fld, v |-> v]
+SetTx(i, fld, v) == IF fld \in BoolFld THEN [op |-> "txf", tx |-> i, fld |-> fld, b |-> v]
+                    ELSE IF fld \in IntFld THEN [op |-> "txf", tx |-> i, fld |-> fld, n |-> v] ELSE [op |-> "txf", tx |-> i, fld |-> fld, v |-> v]
+ValOf(op) == IF op.fld \in BoolFld THEN op.b ELSE IF op.fld \in IntFld THEN op.n ELSE op.v
 Fin(i, f)     == [op |-> "fin", tx |-> i, f |-> f]
 RecvFin(d)    == [op |-> "recvfin", d |-> d]                       \* htp_connp_*_receiver_finalize_clear
 Yield         == [op |-> "yield"]
@@ -191,7 +202,7 @@ ReqOutcomes(p) ==
          IF avail = 0 /\ ~(closed /\ p.in_buf) THEN {O(0, ReqCompleteProg(p, i) \o <<Ret("OK")>>)}
          ELSE (IF closed THEN {} ELSE {O(avail, <<Set("in_buf", p.in_buf \/ avail > 0), Ret("DATA_BUFFER")>>)})
               \cup {O(u, <<Set("in_buf", FALSE)>> \o ReqCompleteProg(p, i) \o <<Ret("OK")>>) : u \in U(0, avail)}   \* empty / method-looking line (peeked)
-              \cup {O(u, <<Set("in_buf", FALSE), Tp("req_finalize_body", i), Cb("request_body_junk", i, "err"), Ret("OK")>>) : u \in U(0, avail)}  \* junk as body
+              \cup {O(u, <<Set("in_buf", FALSE), Tp("req_finalize_body", i), Cb("request_body_junk", i, "err"), Ret("OK")>>) : u \in U(IF closed THEN 0 ELSE 1, avail)}  \* junk as body: the line end is consumed
     [] p.in_state = "REQ_IGNORE_DATA_AFTER_HTTP_0_9" -> {O(avail, <<Ret("DATA")>>)}
     [] OTHER -> {}
 
@@ -277,8 +288,8 @@ ResOutcomes(p) ==
     [] OTHER -> {}
 
 (* ---------------- executing micro-programs ---------------- *)
-ApplySet(p, op) == [p EXCEPT ![op.fld] = op.v]
-ApplyTxf(p, op) == [p EXCEPT !.txs[op.tx] = [@ EXCEPT ![op.fld] = op.v]]
+ApplySet(p, op) == [p EXCEPT ![op.fld] = ValOf(op)]
+ApplyTxf(p, op) == [p EXCEPT !.txs[op.tx] = [@ EXCEPT ![op.fld] = ValOf(op)]]
 
 FinExpand(p, op) == IF TxLive(p, op.tx) /\ IsComplete(p, op.tx)
                     THEN <<Cb("transaction_complete", op.tx, op.f), [op |-> "autod", tx |-> op.tx]>> ELSE <<>>
@@ -335,7 +346,7 @@ Run(p, pr, o) ==
       [] op.op = "looped" -> Run(p, rest, o)
       [] op.op = "use" -> Run([p EXCEPT !.pend = @ + op.u], rest, o)
       [] op.op = "seen100" -> Run([p EXCEPT !.txs[op.tx].c100 = @ + 1], rest, o)
-      [] op.op = "tp" -> Run(p, rest, Ob!ObsStep(o, TpEv(op.id, op.tx)))
+      [] op.op = "tp" -> Run(p, rest, OStep(o, TpEv(op.id, op.tx)))
       [] op.op = "newtx_req" -> LET r == NewTxReq(p) IN Run(r.P, r.prog \o rest, o)
       [] op.op = "picktx_res" -> LET r == PickTxRes(p) IN Run(r.P, r.prog \o rest, o)
 
@@ -345,8 +356,8 @@ Init == /\ P = InitP /\ prog = <<>> /\ cur = "none" /\ avail = 0 /\ calls = 0 /\
 Sticky(st) == st \in {"STOP", "ERROR"}
 
 DataEnterFrom(pb, d, n) ==
-  /\ cur = "none" /\ calls < MaxCalls
-  /\ calls' = calls + 1 /\ cur' = d
+  /\ cur = "none" /\ (LiveMode \/ calls < MaxCalls)
+  /\ calls' = (IF LiveMode THEN calls ELSE calls + 1) /\ cur' = d
   /\ IF d = "req" THEN
         IF Sticky(pb.in_status) THEN /\ prog' = <<EndCall(pb.in_status, FALSE)>> /\ avail' = 0 /\ P' = pb
         ELSE IF pb.in_tx = 0 /\ pb.in_state # "REQ_IDLE" THEN /\ prog' = <<EndCall("ERROR", TRUE)>> /\ avail' = 0 /\ P' = pb
@@ -362,7 +373,7 @@ DataEnterFrom(pb, d, n) ==
         ELSE /\ avail' = n /\ prog' = <<>> /\ P' = [pb EXCEPT !.used = 0]
 
 DataEnter(d, n) == /\ P.cl = 0 /\ DataEnterFrom([P EXCEPT !.used = 0], d, n)
-                   /\ obs' = Ob!ObsStep(obs, CallEv(d, "data", n))
+                   /\ obs' = OStep(obs, CallEv(d, "data", n))
 
 \* htp_connp_close: status overwrite; the two (NULL,0) runs follow as DataEnter(d, 0)
 CloseMark ==
@@ -370,7 +381,7 @@ CloseMark ==
   /\ P.cl = 0
   /\ P' = [P EXCEPT !.in_status = IF @ # "ERROR" THEN "CLOSED" ELSE @,
                     !.out_status = IF @ # "ERROR" THEN "CLOSED" ELSE @, !.cl = 1]
-  /\ obs' = Ob!ObsStep(obs, CallEv("both", "close", 0))
+  /\ obs' = OStep(obs, CallEv("both", "close", 0))
   /\ UNCHANGED <<prog, cur, avail, calls>>
 \* the two inner (NULL,0) runs of htp_connp_close
 CloseEnter == /\ cur = "none" /\ P.cl \in {1, 2}
@@ -451,7 +462,7 @@ EndCallStep ==
      P' = IF cur = "req" THEN [P EXCEPT !.in_status = IF op.setst THEN op.v ELSE @, !.lastq = op.v]
                          ELSE [P EXCEPT !.out_status = IF op.setst THEN op.v ELSE @, !.lasts = op.v]
   /\ cur' = "none" /\ prog' = <<>> /\ avail' = 0
-  /\ obs' = (IF P.cl = 0 THEN Ob!ObsStep(obs, RetEv(P', cur, Head(prog).v, P.used)) ELSE obs)
+  /\ obs' = (IF P.cl = 0 THEN OStep(obs, RetEv(P', cur, Head(prog).v, P.used)) ELSE obs)
   /\ UNCHANGED calls
 
 AllHooks == {"request_start", "request_uri_normalize", "request_line", "request_header_data", "request_headers",
@@ -466,7 +477,7 @@ Next ==
      /\ \/ \E d \in {"req", "res"}, n \in 1..MaxAvail : DataEnter(d, n)
         \/ CloseMark
         \/ CloseEnter
-        \/ (P.cl = 3 /\ cur = "none" /\ P' = [P EXCEPT !.cl = 4] /\ obs' = Ob!ObsStep(obs, RetEv(P, "both", "-", 0))
+        \/ (P.cl = 3 /\ cur = "none" /\ P' = [P EXCEPT !.cl = 4] /\ obs' = OStep(obs, RetEv(P, "both", "-", 0))
             /\ UNCHANGED <<prog, cur, avail, calls>>)
         \/ StepBegin
         \/ \E nm \in AllHooks : CbStep(nm)
@@ -504,7 +515,7 @@ TCloseEnter == CloseEnter /\ l' = l
 TInnerEnd == /\ P.cl \in {2, 3} /\ prog # <<>> /\ Head(prog).op = "endcall" /\ EndCallStep /\ l' = l
 TRetClose == /\ HasLine /\ Line.e = "Ret" /\ Line.d = "both" /\ cur = "none" /\ P.cl = 3
              /\ P.in_status = Line.ist /\ P.out_status = Line.ost /\ Len(P.txs) = Line.ntx /\ P.onti = Line.onti
-             /\ P' = [P EXCEPT !.cl = 0] /\ l' = l + 1 /\ obs' = Ob!ObsStep(obs, RetEv(P, "both", "-", 0))
+             /\ P' = [P EXCEPT !.cl = 0] /\ l' = l + 1 /\ obs' = OStep(obs, RetEv(P, "both", "-", 0))
              /\ UNCHANGED <<prog, cur, avail, calls>>
 TRet == /\ HasLine /\ Line.e = "Ret" /\ prog # <<>> /\ Head(prog).op = "endcall" /\ P.cl = 0
         /\ Head(prog).v = Line.rc
